@@ -102,7 +102,9 @@ def gen_q(which, emb, maxlen=None, alphabet=None, pset=None):
         ov["Alphabet"] = alphabet
     if pset:
         ov["PSet"] = pset
-    return {"module": "Gen_Quantile", "cfg": "Gen_Quantile_%s.cfg" % which, "overrides": ov, "family": "quantile", "embeddings": emb, "timeout": 7200}
+    # dbg: replayed a second time with debug assertions on (debug_assert!s of src/quantile.rs, easy-cast's checked conversions)
+    return {"module": "Gen_Quantile", "cfg": "Gen_Quantile_%s.cfg" % which, "overrides": ov, "family": "quantile", "embeddings": emb, "timeout": 7200,
+            "dbg": which == "small" or (maxlen is not None and alphabet is None)}
 
 
 MC_HF = {"module": "MC_Histogram", "cfg": "MC_Histogram_find.cfg", "overrides": {"LEN": ("2", "3"), "BuildLen": ("4", "5")}, "timeout": 7200}
@@ -206,7 +208,7 @@ PROPS = {
         "technique": 'TLC model checking of Moments.tla (orders 3, 4) + replay on Skewness/Kurtosis + TLC trace validation of recorded arbitrary-f64 histories in exact unbounded arithmetic (Trace_Moments.tla)',
         "title": "skewness and kurtosis equal the exact standardized moments",
         "mc": [MC_BIG, MC_BIGSTATS, MC_SEQ],
-        "replay": [gen_seq("Skewness,Kurtosis", "E0,E1,E2,E3,E5")],
+        "replay": [{**gen_seq("Skewness,Kurtosis", "E0,E1,E2,E3,E5"), "dbg": True}],
         "direct": [long_job("Skewness,Kurtosis", "E0,E1,E2,E3,E5")],
         "trace": [tr_mom(("300", "1500"))],
         "rule": "as C01 for Skewness and Kurtosis; the asymmetric lattice yields both signs of skewness, two-point, "
